@@ -145,6 +145,13 @@ def alphabet():
         "SubIdx1": (1, lambda k: p.Subscript(p.Variable("g"), (k[0],))), "Tuple1Arg": (1, lambda k: p.Call(p.Variable("f"), ((k[0],),))),
         "Tuple0Arg": (1, lambda k: p.Call(p.Variable("f"), ((), k[0]))),
         "SliceIdx": (2, lambda k: p.Subscript(p.Variable("g"), p.Slice(tuple(k)))), "Slice3": (3, lambda k: p.Subscript(p.Variable("g"), p.Slice(tuple(k)))),
+        # slices with absent bounds (every pattern of None among two or three slots), alone and inside an index tuple
+        "SliceFrom": (1, lambda k: p.Subscript(p.Variable("g"), p.Slice((k[0], None)))), "SliceTo": (1, lambda k: p.Subscript(p.Variable("g"), p.Slice((None, k[0])))),
+        "SliceAll": (1, lambda k: p.Subscript(k[0], p.Slice((None, None)))), "SliceAll3": (1, lambda k: p.Subscript(k[0], p.Slice((None, None, None)))),
+        "SliceStep": (1, lambda k: p.Subscript(p.Variable("g"), p.Slice((None, None, k[0])))), "SliceFrom3": (1, lambda k: p.Subscript(p.Variable("g"), p.Slice((k[0], None, None)))),
+        "SliceMid3": (1, lambda k: p.Subscript(p.Variable("g"), p.Slice((None, k[0], None)))), "SliceFromStep": (2, lambda k: p.Subscript(p.Variable("g"), p.Slice((k[0], None, k[1])))),
+        "SliceToStep": (2, lambda k: p.Subscript(p.Variable("g"), p.Slice((None, k[0], k[1])))), "SliceFromTo3": (2, lambda k: p.Subscript(p.Variable("g"), p.Slice((k[0], k[1], None)))),
+        "SliceAllInTuple": (1, lambda k: p.Subscript(p.Variable("g"), (p.Slice((None, None)), k[0]))), "SliceAllLast": (1, lambda k: p.Subscript(p.Variable("g"), (k[0], p.Slice((None, None))))),
     }
     return A
 
